@@ -14,4 +14,4 @@ Extraction "extracted.ml"
   GenSuper.DataStart GenSuper.NInode GenSuper.Inum2Addr GenSuper.NBlockBitmap
   SuperModel.markAlloc_sane SuperModel.mk_bit SuperModel.mk_ibit SuperModel.fresh_free_blocks SuperModel.fresh_free_inodes
   SuperModel.layout_ok_b SuperModel.bitmap_ok_b
-  Agree.agree Agree.hint_of Agree.cmp_state Agree.class_of Agree.code_of.
+  Agree.agree Agree.hint_of Agree.cmp_state Agree.class_of Agree.code_of Agree.nospace_plausible.
